@@ -1067,6 +1067,204 @@ theorem apiFormulaAt_served (l : List (Int × V)) (hl : l.Pairwise (fun a b => a
 
 end Listings
 
+/-! ## scales (round 2) -/
+
+section
+variable {V : Type}
+
+theorem apiBest_stable (D d : Int) (hD : D ≤ d) : ∀ (h : List (Int × Option V)),
+    (∀ kv ∈ h, kv.1 ≤ d → kv.1 ≤ D) → apiBest D h = apiBest d h
+  | [], _ => rfl
+  | (k, v) :: r, hk => by
+    have ih := apiBest_stable D d hD r (fun kv hkv => hk kv (List.mem_cons_of_mem _ hkv))
+    have hk0 := hk (k, v) List.mem_cons_self
+    simp only at hk0
+    have hiff : k ≤ D ↔ k ≤ d := ⟨fun h => Int.le_trans h hD, hk0⟩
+    simp only [apiBest, ih, hiff]
+
+/-- `get_value` picks an entry with the greatest date on or before `d`, when there is one -/
+theorem apiBest_spec (d : Int) : ∀ (l : List (Int × Option V)),
+    (∀ k v, apiBest d l = some (k, v) → (k, v) ∈ l ∧ k ≤ d ∧ ∀ kv ∈ l, kv.1 ≤ d → kv.1 ≤ k) ∧
+    (apiBest d l = none → ∀ kv ∈ l, ¬ kv.1 ≤ d)
+  | [] => ⟨fun k v h => by simp [apiBest] at h, fun _ kv hkv => by cases hkv⟩
+  | (k₀, v₀) :: r => by
+    obtain ⟨ih1, ih2⟩ := apiBest_spec d r
+    constructor
+    · intro k v h
+      simp only [apiBest] at h
+      cases hb : apiBest d r with
+      | none =>
+        rw [hb] at h
+        simp only at h
+        by_cases hk : k₀ ≤ d
+        · rw [if_pos hk] at h
+          cases h
+          refine ⟨List.mem_cons_self, hk, ?_⟩
+          intro kv hkv hle
+          rcases List.mem_cons.mp hkv with e | hm
+          · rw [e]; exact Int.le_refl _
+          · exact absurd hle (ih2 hb kv hm)
+        · rw [if_neg hk] at h; cases h
+      | some p =>
+        obtain ⟨k', v'⟩ := p
+        rw [hb] at h
+        simp only at h
+        obtain ⟨hm, hle, hmax⟩ := ih1 k' v' hb
+        by_cases hc : k₀ ≤ d ∧ k' < k₀
+        · rw [if_pos hc] at h
+          cases h
+          refine ⟨List.mem_cons_self, hc.1, ?_⟩
+          intro kv hkv hle'
+          rcases List.mem_cons.mp hkv with e | hm'
+          · rw [e]; exact Int.le_refl _
+          · exact Int.le_trans (hmax kv hm' hle') (Int.le_of_lt hc.2)
+        · rw [if_neg hc] at h
+          cases h
+          refine ⟨List.mem_cons_of_mem _ hm, hle, ?_⟩
+          intro kv hkv hle'
+          rcases List.mem_cons.mp hkv with e | hm'
+          · rw [e]
+            simp only
+            by_cases h1 : k₀ ≤ d
+            · have : ¬ k < k₀ := fun h2 => hc ⟨h1, h2⟩
+              omega
+            · exact absurd hle' (by rw [e] at hle'; exact fun _ => h1 hle')
+          · exact hmax kv hm' hle'
+    · intro h kv hkv
+      simp only [apiBest] at h
+      cases hb : apiBest d r with
+      | none =>
+        rw [hb] at h
+        simp only at h
+        by_cases hk : k₀ ≤ d
+        · rw [if_pos hk] at h; cases h
+        · rcases List.mem_cons.mp hkv with e | hm
+          · rw [e]; exact hk
+          · exact ih2 hb kv hm
+      | some p =>
+        rw [hb] at h
+        simp only at h
+        split at h <;> cases h
+
+theorem apiGetValue_stable (D d : Int) (hD : D ≤ d) (h : List (Int × Option V))
+    (hk : ∀ kv ∈ h, kv.1 ≤ d → kv.1 ≤ D) : apiGetValue D h = apiGetValue d h := by
+  unfold apiGetValue; rw [apiBest_stable D d hD h hk]
+
+theorem apiGetValue_none_of_after (d : Int) (h : List (Int × Option V)) (hno : ∀ kv ∈ h, ¬ kv.1 ≤ d) :
+    apiGetValue d h = none := by
+  obtain ⟨h1, _⟩ := apiBest_spec d h
+  unfold apiGetValue
+  cases hbb : apiBest d h with
+  | none => rfl
+  | some p =>
+    obtain ⟨k, v⟩ := p
+    obtain ⟨hm, hle, _⟩ := h1 k v hbb
+    exact absurd hle (hno (k, v) hm)
+end
+
+theorem mem_dedupDates (x : Int) : ∀ (l : List Int), x ∈ dedupDates l ↔ x ∈ l
+  | [] => by simp [dedupDates]
+  | y :: ys => by
+    simp only [dedupDates, List.mem_cons, List.mem_filter, mem_dedupDates x ys, decide_eq_true_eq]
+    constructor
+    · rintro (h | ⟨h, _⟩)
+      · exact Or.inl h
+      · exact Or.inr h
+    · rintro (h | h)
+      · exact Or.inl h
+      · by_cases e : x = y
+        · exact Or.inl e
+        · exact Or.inr ⟨h, e⟩
+
+theorem mem_bracketDates_thr {brs : List ApiBracket} {b : ApiBracket} (hb : b ∈ brs) {kv : Int × Option Rat}
+    (h : kv ∈ b.thresholds) : kv.1 ∈ bracketDates brs :=
+  List.mem_flatMap.mpr ⟨b, hb, List.mem_append_left _ (List.mem_map.mpr ⟨kv, h, rfl⟩)⟩
+
+theorem mem_bracketDates_val {brs : List ApiBracket} {b : ApiBracket} (hb : b ∈ brs) {kv : Int × Option Rat}
+    (h : kv ∈ b.values) : kv.1 ∈ bracketDates brs :=
+  List.mem_flatMap.mpr ⟨b, hb, List.mem_append_right _ (List.mem_map.mpr ⟨kv, h, rfl⟩)⟩
+
+theorem foldl_congr_mem {α β : Type} (f g : β → α → β) : ∀ (l : List α) (b : β), (∀ a ∈ l, ∀ b, f b a = g b a) →
+    l.foldl f b = l.foldl g b
+  | [], _, _ => rfl
+  | a :: l, b, h => by
+    simp only [List.foldl_cons, h a List.mem_cons_self b]
+    exact foldl_congr_mem f g l _ (fun x hx => h x (List.mem_cons_of_mem _ hx))
+
+/-- between two consecutive dates of the scale nothing changes -/
+theorem scaleRow_stable (brs : List ApiBracket) (D d : Int) (hD : D ≤ d)
+    (hmax : ∀ k ∈ bracketDates brs, k ≤ d → k ≤ D) : scaleRow D brs = scaleRow d brs := by
+  unfold scaleRow
+  apply foldl_congr_mem
+  intro b hb row
+  rw [apiGetValue_stable D d hD b.thresholds (fun kv hkv => hmax kv.1 (mem_bracketDates_thr hb hkv)),
+    apiGetValue_stable D d hD b.values (fun kv hkv => hmax kv.1 (mem_bracketDates_val hb hkv))]
+
+/-- before the first date of the scale no bracket is in force -/
+theorem scaleRow_nil_of_before (brs : List ApiBracket) (d : Int) (hno : ∀ k ∈ bracketDates brs, ¬ k ≤ d) :
+    scaleRow d brs = [] := by
+  unfold scaleRow
+  have : ∀ (l : List ApiBracket) (row : List (Rat × Option Rat)), (∀ b ∈ l, b ∈ brs) →
+      l.foldl (fun row b => match apiGetValue d b.thresholds with
+        | some t => rowSet t (apiGetValue d b.values) row
+        | none => row) row = row := by
+    intro l
+    induction l with
+    | nil => intro row _; rfl
+    | cons b l ih =>
+      intro row hl
+      have hb := hl b List.mem_cons_self
+      have hn : apiGetValue d b.thresholds = none :=
+        apiGetValue_none_of_after d b.thresholds (fun kv hkv => hno kv.1 (mem_bracketDates_thr hb hkv))
+      simp only [List.foldl_cons, hn]
+      exact ih row (fun b' hb' => hl b' (List.mem_cons_of_mem _ hb'))
+  exact this brs [] (fun _ h => h)
+
+/-- **what a reader of the rows sees on day `d`**: the brackets in force on that day -/
+theorem servedScale_read (brs : List ApiBracket) (d : Int) :
+    (∀ D, D ∈ bracketDates brs → D ≤ d → (∀ k ∈ bracketDates brs, k ≤ d → k ≤ D) → scaleRow D brs ≠ [] →
+      apiGetValue d (servedScale brs) = some (scaleRow d brs)) ∧
+    ((∀ k ∈ bracketDates brs, ¬ k ≤ d) → apiGetValue d (servedScale brs) = none ∧ scaleRow d brs = []) := by
+  have hmemS : ∀ k v, (k, v) ∈ servedScale brs → k ∈ bracketDates brs ∧ v = some (scaleRow k brs) := by
+    intro k v hm
+    unfold servedScale at hm
+    obtain ⟨k', hk', hkv⟩ := List.mem_filterMap.mp hm
+    split at hkv
+    · cases hkv
+    · simp only [Option.some.injEq, Prod.mk.injEq] at hkv
+      obtain ⟨rfl, rfl⟩ := hkv
+      exact ⟨(mem_dedupDates _ _).mp hk', rfl⟩
+  constructor
+  · intro D hDm hDd hmax hne
+    have hDs : (D, some (scaleRow D brs)) ∈ servedScale brs := by
+      unfold servedScale
+      refine List.mem_filterMap.mpr ⟨D, (mem_dedupDates _ _).mpr hDm, ?_⟩
+      have : (scaleRow D brs).isEmpty = false := by
+        cases hr : scaleRow D brs with
+        | nil => exact absurd hr hne
+        | cons _ _ => rfl
+      rw [this]; rfl
+    obtain ⟨h1, h2⟩ := apiBest_spec d (servedScale brs)
+    unfold apiGetValue
+    cases hb : apiBest d (servedScale brs) with
+    | none => exact absurd hDd (h2 hb _ hDs)
+    | some p =>
+      obtain ⟨k, v⟩ := p
+      obtain ⟨hm, hle, hgt⟩ := h1 k v hb
+      obtain ⟨hk', rfl⟩ := hmemS k v hm
+      have hkD : k = D := by
+        have a := hmax k hk' hle
+        have b := hgt _ hDs hDd
+        simp only at b
+        omega
+      simp only
+      rw [hkD, scaleRow_stable brs D d hDd hmax]
+  · intro hno
+    refine ⟨?_, scaleRow_nil_of_before brs d hno⟩
+    apply apiGetValue_none_of_after
+    intro kv hkv
+    exact hno kv.1 (hmemS kv.1 kv.2 hkv).1
+
 theorem instExps_all_true_of_ignored (w : Sim) (t : YTest) (pl var : String) (per : Option String)
     (hig : shouldIgnore t var = true) :
     ∀ (ids : List String) (es : List Exp) (o : Nat),
@@ -1084,5 +1282,155 @@ theorem instExps_all_true_of_ignored (w : Sim) (t : YTest) (pl var : String) (pe
       rw [this]; congr 1; omega)
     simp only [instExps, List.all_cons, ih, Bool.and_true, checkExpectation, instKnown, Option.getD_some, hi0,
       Option.isSome_some, Bool.true_eq_false, if_false, hig, if_true]
+
+/-! ## Wider margins (round 2) -/
+
+theorem absQ_mul (a b : Rat) : absQ (a * b) = absQ a * absQ b := by
+  unfold absQ
+  by_cases ha : a < 0 <;> by_cases hb : b < 0
+  · have : ¬ a * b < 0 := by
+      have := Rat.mul_pos (a := -a) (b := -b) (by grind) (by grind)
+      grind
+    simp only [ha, hb, this, if_true, if_false]; grind
+  · by_cases hb0 : b = 0
+    · subst hb0; simp
+    · have : a * b < 0 := by
+        have := Rat.mul_pos (a := -a) (b := b) (by grind) (by grind)
+        grind
+      simp only [ha, hb, this, if_true, if_false]; grind
+  · by_cases ha0 : a = 0
+    · subst ha0; simp
+    · have : a * b < 0 := by
+        have := Rat.mul_pos (a := a) (b := -b) (by grind) (by grind)
+        grind
+      simp only [ha, hb, this, if_true, if_false]; grind
+  · have : ¬ a * b < 0 := by
+      have := Rat.mul_nonneg (a := a) (b := b) (by grind) (by grind)
+      grind
+    simp only [ha, hb, this, if_false]
+
+/-- the margins `(a', r')` accept whatever the margins `(a, r)` accept -/
+def Wider (a r a' r' : Option Rat) : Prop := ∀ e x : Rat, near a r e x = true → near a' r' e x = true
+
+theorem Wider.refl (a r : Option Rat) : Wider a r a r := fun _ _ h => h
+
+theorem Wider.trans {a r a' r' a'' r'' : Option Rat} (h₁ : Wider a r a' r') (h₂ : Wider a' r' a'' r'') :
+    Wider a r a'' r'' := fun e x h => h₂ e x (h₁ e x h)
+
+/-- the comparison of one element: the margins only enter through `near` -/
+theorem holds1_mono {a r a' r' : Option Rat} (hw : Wider a r a' r') (mode : Mode) (p : Val × Exp)
+    (h : holds1 mode a r p = true) : holds1 mode a' r' p = true := by
+  obtain ⟨v, e⟩ := p
+  cases mode with
+  | enum => cases v <;> cases e <;> simp [holds1, cmp1] at h ⊢ <;> exact h
+  | text =>
+    cases v with
+    | str s =>
+      simp only [holds1, cmp1] at h ⊢
+      cases ht : e.toText with
+      | error x => rw [ht] at h; simp at h
+      | ok s' => rw [ht] at h; simpa using h
+    | int n => simp [holds1, cmp1] at h
+    | num q => simp [holds1, cmp1] at h
+    | bool b => simp [holds1, cmp1] at h
+    | date d => simp [holds1, cmp1] at h
+    | enum n => simp [holds1, cmp1] at h
+  | date =>
+    cases v with
+    | date d =>
+      simp only [holds1, cmp1] at h ⊢
+      cases ht : e.toDate with
+      | error x => rw [ht] at h; simp at h
+      | ok d' =>
+        rw [ht] at h
+        simp only [Bool.and_eq_true, decide_eq_true_eq] at h ⊢
+        exact ⟨h.1, hw 0 0 h.2⟩
+    | int n => simp [holds1, cmp1] at h
+    | num q => simp [holds1, cmp1] at h
+    | bool b => simp [holds1, cmp1] at h
+    | str s => simp [holds1, cmp1] at h
+    | enum n => simp [holds1, cmp1] at h
+  | numeric =>
+    simp only [holds1, cmp1] at h ⊢
+    cases hv : v.toNum with
+    | error x => rw [hv] at h; simp at h
+    | ok x =>
+      rw [hv] at h
+      cases he : e.toNum with
+      | error y => rw [he] at h; simp at h
+      | ok t =>
+        rw [he] at h
+        simp only at h ⊢
+        exact hw t x h
+
+theorem assertNear_mono {a r a' r' : Option Rat} (hw : Wider a r a' r') (ty : VType) (vs : List Val) (tg : Target)
+    (h : assertNear ty vs tg a r = true) : assertNear ty vs tg a' r' = true := by
+  unfold assertNear at h ⊢
+  cases hp : pairUp vs tg with
+  | error e => rw [hp] at h; cases h
+  | ok ps =>
+    rw [hp] at h
+    simp only [List.all_eq_true] at h ⊢
+    exact fun p hpm => holds1_mono hw _ p (h p hpm)
+
+/-- test `t'` states, for every variable, margins at least as wide as test `t` -/
+def MarginsWider (t t' : YTest) : Prop :=
+  ∀ var a r, marginFor t.absM var = .ok a → marginFor t.relM var = .ok r →
+    ∃ a' r', marginFor t'.absM var = .ok a' ∧ marginFor t'.relM var = .ok r' ∧ Wider a r a' r'
+
+theorem checkValue_mono (w : Sim) (t t' : YTest) (hm : MarginsWider t t') (x : Expectation)
+    (h : checkValue w t x = true) : checkValue w t' x = true := by
+  obtain ⟨per, ty, vec, vs, a, r, ps, h1, h2, h3, h4, h5, h6, h7, h8⟩ := (checkValue_iff w t x).mp h
+  obtain ⟨a', r', ha', hr', hw⟩ := hm x.var a r h5 h6
+  have hn : assertNear ty vs x.expected a r = true := (assertNear_iff ty vs x.expected a r).mpr ⟨ps, h7, h8⟩
+  simp only [checkValue, h1, h2, h3, h4, ha', hr']
+  exact assertNear_mono hw ty vs x.expected hn
+
+/-! ## What the three layouts denote (round 2) -/
+
+/-- one elementary assertion of a test: the value of `var` at `period` for the entity instance of
+index `idx` is expected to be `expected` -/
+structure Atom where
+  var : String
+  period : Option String
+  idx : Nat
+  expected : Exp
+deriving DecidableEq, Repr
+
+/-- the elementary assertions an expectation stands for, over a population of `n` instances: a named
+instance selects its index; a whole-vector expectation is read element by element (a scalar is
+broadcast) -/
+def atomsOf (w : Sim) (n : Nat) (x : Expectation) : List Atom :=
+  match x.inst with
+  | some id =>
+    match w.index (x.entity.getD "") id with
+    | none => []
+    | some i =>
+      match x.expected with
+      | .scalar e => [⟨x.var, x.period, i, e⟩]
+      | .list es => es.map (fun e => ⟨x.var, x.period, i, e⟩)
+  | none =>
+    match x.expected with
+    | .scalar e => (List.range n).map (fun i => ⟨x.var, x.period, i, e⟩)
+    | .list es => (List.zipIdx es).map (fun (p : Exp × Nat) => ⟨x.var, x.period, p.2, p.1⟩)
+
+theorem atoms_instExps (w : Sim) (n : Nat) (pl var : String) (per : Option String) :
+    ∀ (ids : List String) (es : List Exp) (o : Nat), es.length = ids.length →
+      (∀ k (h : k < ids.length), w.index pl ids[k] = some (o + k)) →
+      (instExps pl var per ids es).flatMap (atomsOf w n) =
+        (List.zipIdx es o).map (fun (p : Exp × Nat) => ⟨var, per, p.2, p.1⟩)
+  | [], [], _, _, _ => rfl
+  | [], _ :: _, _, hl, _ => by simp at hl
+  | _ :: _, [], _, hl, _ => by simp at hl
+  | id :: ids, e :: es, o, hl, hidx => by
+    have hi0 : w.index pl id = some o := by
+      have := hidx 0 (by simp)
+      simpa using this
+    have ih := atoms_instExps w n pl var per ids es (o + 1) (by simpa using hl) (fun k h => by
+      have := hidx (k + 1) (by simp; omega)
+      simp only [List.getElem_cons_succ] at this
+      rw [this]; congr 1; omega)
+    simp only [instExps, List.flatMap_cons, ih, atomsOf, Option.getD_some, hi0, List.zipIdx_cons, List.map_cons,
+      List.singleton_append]
 
 end OFCore.Api
